@@ -169,7 +169,9 @@ func (fr *Frame) exec(st *State, ins ssa.Instruction) {
 		}
 	case *ssa.MakeInterface:
 		v := fr.val(x.X)
-		fr.setVal(st, x, u.makeIface(st, v.T, x.X.Type()))
+		nv := fr.setVal(st, x, u.makeIface(st, v.T, x.X.Type()))
+		nv.DynTyp = x.X.Type()
+		fr.vals[x] = nv
 	case *ssa.ChangeInterface:
 		fr.setVal(st, x, fr.val(x.X).T)
 	case *ssa.ChangeType:
@@ -420,8 +422,8 @@ func (fr *Frame) binop(st *State, x *ssa.BinOp) {
 		}
 	case token.ADD:
 		if s == SStr {
-			u.usesStrOps = true
-			t = "(str.++ " + l.T + " " + r.T + ")"
+			// concatenation in the code: exact in string mode, an uninterpreted function otherwise (sound abstraction)
+			t = "(STRCAT " + l.T + " " + r.T + ")"
 		} else {
 			t = "(+ " + l.T + " " + r.T + ")"
 		}
